@@ -25,12 +25,13 @@ ValueOf(c) == MkFromString([op |-> "sid", uri |-> c.uri, segs |-> c.segs, query 
 Free == {h \in Handles : pop[h] = Nil}
 Bound == Handles \ Free
 Ops == {"fields_set", "fields_del", "fields_clear", "parent", "get_as", "get_with", "get_with_none", "copy", "path", "as_query",
-        "div", "str_repr_hash", "get", "eq_all", "sort_all", "uri", "is_search", "match_self", "get_with_query"}
+        "div", "str_repr_hash", "get", "eq_all", "sort_all", "uri", "is_search", "match_self", "get_with_query",
+        "pycopy", "deepcopy", "pickle"}      \* the standard copy / pickle protocols: a new, equal, independent value
 Make(h, c) == h \in Free /\ pop' = [pop EXCEPT ![h] = ValueOf(c)] /\ hist' = Append(hist, [op |-> "make", h |-> h, c |-> c])
 \* an operation on a bound handle may bind its result to a free handle (derived Sids stay in the population)
 Derived(x, op) == IF op = "parent" THEN Parent(x)
                   ELSE IF op = "get_as" THEN (IF x.fields = <<>> THEN EmptySid ELSE GetAs(x, x.fields[1][1]))
-                  ELSE IF op = "copy" THEN x
+                  ELSE IF op \in {"copy", "pycopy", "deepcopy", "pickle"} THEN x
                   ELSE Nil
 Apply(h, op) == /\ h \in Bound
                 /\ hist' = Append(hist, [op |-> op, h |-> h])
